@@ -542,6 +542,30 @@ func (e *env) explore(thorough bool) {
 			}
 		}
 	}
+	// the same later messages against a deployment whose TO2 responder sits behind a middleware that forwards Respond
+	// and HandleError only (an audit / metrics wrapper embedding the Responder interface): the handler then cannot
+	// obtain the session's keys. Whatever it does instead (the unchanged handler aborts the request), it must not
+	// hand plaintext 66/68/70 to the responder
+	for _, stage := range []string{"after-60", "after-60-62"} {
+		for _, mt := range []int{66, 68, 70} {
+			for _, prot := range []string{"plaintext", "empty"} {
+				a := e.newAdv()
+				a.ow.Handler.TO2Responder = struct{ protocol.Responder }{a.ow.TO2}
+				a.wire = lab.NewWire(a.ow)
+				a.wire.RecoverPanics = true
+				if !a.hello(guid, stage != "after-60") {
+					r.Add("wrapped_responder_hello_refused", 1)
+					continue
+				}
+				a.wire.Send(mt, a.token, e.laterBody(mt, prot, genuine))
+				if mt == 66 {
+					a.wire.Send(68, a.token, e.laterBody(68, prot, genuine))
+					a.wire.Send(70, a.token, e.laterBody(70, prot, genuine))
+				}
+				e.judge("later-message:wrapped-responder:"+stage+":"+prot, fmt.Sprintf("%d", mt), a.result(), "")
+			}
+		}
+	}
 	// in-session replay of the genuine 64 by the device itself is allowed to fail but must not serve twice without proof: covered by leaf/judge
 	{
 		rec := &lab.Recorder{}
@@ -610,7 +634,7 @@ func main() {
 		cfgs = append(cfgs, cfg{"ec384", kex.ECDH384Suite, kex.A256GcmCipher}, cfg{"ec256", kex.ECDH256Suite, kex.CoseAes128CbcCipher}, cfg{"rsapss3072", kex.DHKEXid15Suite, kex.CoseAes256CtrCipher},
 			cfg{"rsapkcs3072", kex.ASYMKEX3072Suite, kex.A192GcmCipher}, cfg{"rsapss2048", kex.DHKEXid14Suite, kex.CoseAes256CbcCipher}, cfg{"ec384", kex.ECDH384Suite, kex.CoseAes128CtrCipher})
 	}
-	r.Rule("per configuration: an honest TO2 (non-vacuity: completes, one voucher replacement, owner module ran), then one deviation per run against the real handler+TO2Server: every single-node alteration (thorough: plus every byte ^0x01) of the genuine HelloDevice, GetOVNextEntry and ProveDevice in the device's own live session; structurally perfect ProveDevice tokens signed by 5-6 foreign keys; tokens signed by the genuine device key but with a wrong nonce, another device's UEID, without the key-exchange claim (a relayed TO1 token), without SetupDevice nonce, with the nonce claim one octet short / one zero octet long / empty / equal to the issued nonce with trailing zero octets stripped (in a session found to have issued a nonce ending in zero), or recorded in another session; another device proving itself inside this device's session; messages 66/68/70 after {only 60, 60+62s, a failed 64} as plaintext, as ciphertext of another session, under an all-zero key, under a random key, empty; in-session replay of 64. Oracle per session token: any response 65/67/69/71 => reference predicate (a ProveDevice received in that session verifies under the voucher's device-certificate key, carries the nonce issued in that session, the UEID of the session's GUID, a key-exchange parameter and SetupDevice nonce); voucher replacement or owner-module call => some session satisfied it.")
+	r.Rule("per configuration: an honest TO2 (non-vacuity: completes, one voucher replacement, owner module ran), then one deviation per run against the real handler+TO2Server: every single-node alteration (thorough: plus every byte ^0x01) of the genuine HelloDevice, GetOVNextEntry and ProveDevice in the device's own live session; structurally perfect ProveDevice tokens signed by 5-6 foreign keys; tokens signed by the genuine device key but with a wrong nonce, another device's UEID, without the key-exchange claim (a relayed TO1 token), without SetupDevice nonce, with the nonce claim one octet short / one zero octet long / empty / equal to the issued nonce with trailing zero octets stripped (in a session found to have issued a nonce ending in zero), or recorded in another session; another device proving itself inside this device's session; messages 66/68/70 after {only 60, 60+62s, a failed 64} as plaintext, as ciphertext of another session, under an all-zero key, under a random key, empty; in-session replay of 64; plaintext / empty 66/68/70 against a deployment whose TO2 responder is wrapped by a middleware exposing Respond and HandleError only. Oracle per session token: any response 65/67/69/71 => reference predicate (a ProveDevice received in that session verifies under the voucher's device-certificate key, carries the nonce issued in that session, the UEID of the session's GUID, a key-exchange parameter and SetupDevice nonce); voucher replacement or owner-module call => some session satisfied it.")
 	var wg sync.WaitGroup
 	for _, c := range cfgs {
 		wg.Add(1)
